@@ -62,6 +62,7 @@ func c07ManyBlocks(r *Run) {
 		file := ct.Bytes(false)
 		readers := map[string]func() avro.Reader{
 			"bytes.Reader":                     func() avro.Reader { return bytes.NewReader(file) },
+			"reader returning data with EOF":   func() avro.Reader { return &c07DataEOFReader{data: file, chunk: 1} },
 			"pausing reader":                   func() avro.Reader { return &c07PausingReader{r: bytes.NewReader(file)} },
 			"pausing reader, 7 bytes per Read": func() avro.Reader { return &c07PausingReader{r: bytes.NewReader(file), short: 7} },
 			"bufio(16) over pausing reader": func() avro.Reader {
@@ -203,4 +204,36 @@ func c07PanickingCallback(r *Run) {
 			}
 		}
 	}
+}
+
+// c07DataEOFReader returns io.EOF together with the last bytes it has (never an empty read
+// followed by EOF), in reads of at most chunk bytes; ReadByte reports EOF only when empty.
+type c07DataEOFReader struct {
+	data  []byte
+	chunk int
+}
+
+func (d *c07DataEOFReader) Read(p []byte) (int, error) {
+	if len(d.data) == 0 {
+		return 0, io.EOF
+	}
+	n := min(len(p), len(d.data))
+	if d.chunk > 0 && n > d.chunk*64 {
+		n = d.chunk * 64
+	}
+	copy(p, d.data[:n])
+	d.data = d.data[n:]
+	if len(d.data) == 0 {
+		return n, io.EOF
+	}
+	return n, nil
+}
+
+func (d *c07DataEOFReader) ReadByte() (byte, error) {
+	if len(d.data) == 0 {
+		return 0, io.EOF
+	}
+	b := d.data[0]
+	d.data = d.data[1:]
+	return b, nil
 }
